@@ -83,7 +83,7 @@ def run_prio_fn(case):
     e = np.sort(np.abs(np.concatenate([
         rng.normal(size=n) * 10 ** rng.uniform(-6, 4),
         [0.0, 1e-12, 1.0, 1.0, 1e6]])))
-    alpha = float(rng.choice([0.1, 0.4, 0.6, 1.0, rng.uniform(0.01, 1)]))
+    alpha = float(rng.choice([0.0, 0.1, 0.4, 0.6, 1.0, rng.uniform(0.01, 1)]))
     minp = float(rng.choice([1.0, 0.1, 1e-3, 5.0]))
     eps = float(rng.choice([1e-6, 1e-2]))
     ok, lp = guarded(res, "C08/raises/lap_priority", lap_priority,
